@@ -2814,6 +2814,127 @@ def _rule1(ctx, rep):
 # ---------------------------------------------------------------------------
 
 
+def _rule6(ctx, rep):
+    """the SQL range term is the same half-open interval as basis.Range (added after seeded change C17-4: the PostgreSQL
+    backend's `run_ID >= %s and run_ID < %s` became `run_ID BETWEEN %s AND %s`, which includes the stop)"""
+    import re as _re
+
+    prog = ctx.prog
+    cands = [f for q, f in prog.funcs.items() if q.startswith('dawgie.db.post.search.') and any(isinstance(n, ast.Attribute) and n.attr in ('start', 'stop') for n in f.own_nodes())]
+    with rep.rule(
+        'R-C17-6',
+        'PostgreSQL run-ID ranges are half open like basis.Range: in the branch that pushes (start, stop) the SQL term compares with ">=" then "<", in the branch that pushes only start it compares with ">="; one placeholder per pushed bound',
+        floor=2,
+        breaks='entries whose run ID equals the stop of a range are returned (or entries at the start are not): find, total and facet disagree with the shelve backend and with Range.__contains__',
+    ) as r:
+        if not cands:
+            raise AnalysisError('db.post.search: no function handling Range.start / Range.stop found')
+        for f in cands:
+            g = prog.nfunc(f.qname)
+            rep.analysed(g)
+
+            def text_of(e):
+                if isinstance(e, ast.Constant) and isinstance(e.value, str):
+                    return e.value
+                if isinstance(e, ast.Name):
+                    vals = g.module.globals.get(e.id, [])
+                    if len(vals) == 1 and isinstance(vals[0], ast.Constant) and isinstance(vals[0].value, str):
+                        return vals[0].value
+                if isinstance(e, ast.Call) and isinstance(e.func, ast.Attribute) and e.func.attr == 'format':
+                    return text_of(e.func.value)
+                return None
+
+            def blocks(stmts):
+                yield stmts
+                for st in stmts:
+                    for fld in ('body', 'orelse', 'finalbody'):
+                        sub = getattr(st, fld, None)
+                        if isinstance(sub, list) and sub and isinstance(sub[0], ast.stmt):
+                            yield from blocks(sub)
+
+            for blk in blocks(g.node.body):
+                pushed, term = [], None
+                for st in blk:
+                    if not (isinstance(st, ast.Expr) and isinstance(st.value, ast.Call) and isinstance(st.value.func, ast.Attribute)):
+                        continue
+                    c = st.value
+                    attrs = [x.attr for a in c.args for x in ast.walk(a) if isinstance(x, ast.Attribute) and x.attr in ('start', 'stop')]
+                    if c.func.attr in ('append', 'extend') and attrs:
+                        pushed += attrs
+                    elif c.func.attr == 'append' and c.args and text_of(c.args[0]) is not None and 'run' in text_of(c.args[0]).lower():
+                        term = (c, text_of(c.args[0]))
+                if not pushed or term is None:
+                    continue
+                r.instance()
+                call, txt = term
+                ops = _re.findall(r'(>=|<=|<>|!=|=|<|>)\s*%s', txt)
+                between = bool(_re.search(r'\bbetween\b', txt, _re.I))
+                want = ['>=', '<'] if pushed == ['start', 'stop'] else (['>='] if pushed == ['start'] else None)
+                r.check(
+                    want is not None and not between and ops == want and txt.count('%s') == len(pushed),
+                    f'{f.qname}:range-term[{"+".join(pushed)}]',
+                    where(g, call),
+                    f'"{txt}" with bounds {pushed}',
+                    f'{f.qname}: the SQL term "{txt}" for the pushed bounds {pushed} is not the half-open interval start <= run < stop (operators {ops}{", BETWEEN is inclusive" if between else ""})',
+                )
+
+
+def _rule7(ctx, rep):
+    """the page reaches the client in the order find() produced (added after seeded change C17-5: the search end point
+    sorted the page by text, so run 10 was listed before run 9 and concatenated pages differed from the full reply)"""
+    prog = ctx.prog
+    with rep.rule(
+        'R-C17-7',
+        'every caller of SearchFacade.find hands the result on without reordering, filtering or de-duplicating its items (no sorted / sort / reversed / set / filter / slice of the items between find and the reply)',
+        floor=1,
+        breaks='the client sees a page in another order (or with other entries) than the matches in ascending run-ID order: pages no longer concatenate to the full result',
+    ) as r:
+        n = 0
+        for q, raw in sorted(prog.funcs.items()):
+            if not q.startswith('dawgie.fe.'):
+                continue
+            finds = [c for c in raw.calls() if isinstance(c.func, ast.Attribute) and c.func.attr == 'find' and isinstance(c.func.value, ast.Call) and (prog.resolve_in(c.func.value.func, raw) or '').endswith('dawgie.db.search')]
+            finds += [c for c in raw.calls() if isinstance(c.func, ast.Attribute) and c.func.attr == 'find' and isinstance(c.func.value, ast.Name) and any(isinstance(d, ast.Assign) and any(isinstance(t, ast.Name) and t.id == c.func.value.id for t in d.targets) and isinstance(d.value, ast.Call) and (prog.resolve_in(d.value.func, raw) or '').endswith('dawgie.db.search') for d in raw.own_nodes())]
+            if not finds:
+                continue
+            f = prog.nfunc(q)
+            rep.analysed(f)
+            n += 1
+            r.instance()
+            # names that hold the result (or its items)
+            held = set()
+            for d in f.own_nodes():
+                if isinstance(d, ast.Assign) and any(isinstance(x, ast.Call) and isinstance(x.func, ast.Attribute) and x.func.attr == 'find' for x in ast.walk(d.value)):
+                    held |= {t.id for t in d.targets if isinstance(t, ast.Name)}
+            changed = True
+            while changed:
+                changed = False
+                for d in f.own_nodes():
+                    if isinstance(d, ast.Assign) and any(isinstance(x, ast.Name) and x.id in held for x in ast.walk(d.value)):
+                        new_names = {t.id for t in d.targets if isinstance(t, ast.Name)} - held
+                        if new_names:
+                            held |= new_names
+                            changed = True
+            bad = []
+            for c in f.calls():
+                name = c.func.id if isinstance(c.func, ast.Name) else (c.func.attr if isinstance(c.func, ast.Attribute) else '')
+                touches = any(isinstance(x, ast.Attribute) and x.attr == 'items' and isinstance(x.value, ast.Name) and x.value.id in held for a in list(c.args) + [k.value for k in c.keywords] + ([c.func.value] if isinstance(c.func, ast.Attribute) else []) for x in ast.walk(a))
+                if touches and name in ('sorted', 'reversed', 'set', 'frozenset', 'filter', 'sort', 'reverse', 'shuffle', 'sample', 'fromkeys'):
+                    bad.append(c)
+            for x in f.own_nodes():
+                if isinstance(x, ast.Subscript) and isinstance(x.slice, ast.Slice) and isinstance(x.value, ast.Attribute) and x.value.attr == 'items' and isinstance(x.value.value, ast.Name) and x.value.value.id in held:
+                    bad.append(x)
+            r.check(
+                not bad,
+                f'{q}:page-order-kept',
+                where(f, bad[0] if bad else finds[0]),
+                'the items of the result are handed on as they are',
+                f'{q} applies {norm(bad[0])[:70] if bad else ""} to the items returned by find(): the page no longer is the slice of the matches in ascending run-ID order',
+            )
+        if not n:
+            raise AnalysisError('no front-end caller of dawgie.db.search().find found')
+
+
 def check(ctx):
     rep = Report(
         PID,
@@ -2844,6 +2965,8 @@ def check(ctx):
     _rule3(ctx, rep)
     _rule4(ctx, rep)
     _rule5(ctx, rep)
+    _rule6(ctx, rep)
+    _rule7(ctx, rep)
     return rep
 
 
@@ -2853,6 +2976,9 @@ _AR, _AC = 'SearchImplementation.__add_runids', 'SearchImplementation.__args_n_c
 
 # ``old`` texts that only exist after pending fixes C17-1..4 are skipped automatically on the unrepaired tree
 VARIANTS = [
+    V('search end point sorts the page as text', 'B', 'fe/api/database.py', 'search', 'return build_return_object(results._asdict())', 'results = results._replace(items=sorted(results.items, key=str.casefold))\n    return build_return_object(results._asdict())', 'R-C17-7'),
+    V('post range uses BETWEEN', 'B', 'db/post/search.py', None, "_RANGE = 'run_ID >= %s and run_ID < %s'", "_RANGE = 'run_ID BETWEEN %s AND %s'", 'R-C17-6'),
+    V('post range upper case AND', 'N', 'db/post/search.py', None, "_RANGE = 'run_ID >= %s and run_ID < %s'", "_RANGE = 'run_ID >= %s AND run_ID < %s'", None),
     # ---- R-C17-1
     V('ranges added to the id set again', 'B', _SH, _PK, 'ranges.append(rid)', 'rids.add(rid)', 'R-C17-1'),
     V('Range alternative dropped in shelve', 'B', _SH, _PK, 'ranges.append(rid)', 'pass', 'R-C17-1'),
